@@ -83,6 +83,10 @@ def plainStmt : Stmt → Bool
 
 def fragA (prog : List Stmt) : Bool := prog.all fragAStmt
 
+def isOk {α} : Except Exc α → Bool
+  | .ok _ => true
+  | .error _ => false
+
 /-! ### initial states -/
 
 def boundIn (sc : Scope) (n : Str) : Bool := (sc.get n).isSome
@@ -96,5 +100,192 @@ structure Agree (builtins : Scope) (ns : List Scope) (s0 : XState) : Prop where
   noStar : boundIn builtins ['*'] = false ∧ ∀ sc ∈ ns, boundIn sc ['*'] = false
   noClass : ∀ sc ∈ ns, sc.isClass = false
   ne0 : s0.ne = []
+
+/-! ### D9 families: decidable predicates on (program, name)
+
+The harness (`harness/c05.py`, `FAMILIES`) uses the same predicates on the JSON AST to classify oracle failures;
+here they name the hypotheses of the target theorem and are refuted on the witnesses in `Props.lean`. -/
+
+mutual
+  /-- all names in load position anywhere inside an expression (lambda bodies and comprehensions included) -/
+  def readsE : Expr → List Str
+    | .name n => [n]
+    | .attr e _ => readsE e
+    | .call f args => readsE f ++ readsEs args
+    | .binop l r => readsE l ++ readsE r
+    | .lambda a b => readsArgs a ++ readsE b
+    | .comp _ elts gens => readsEs elts ++ readsGens gens
+    | .ifExp t a b => readsE t ++ readsE a ++ readsE b
+    | .tuple es => readsEs es
+    | .list es => readsEs es
+    | .subscript v i => readsE v ++ readsE i
+    | _ => []
+  def readsEs : List Expr → List Str
+    | [] => []
+    | e :: es => readsE e ++ readsEs es
+  def readsGens : List Gen → List Str
+    | [] => []
+    | .mk _ it ifs :: gs => readsE it ++ readsEs ifs ++ readsGens gs
+  def readsOpts : List (Option Expr) → List Str
+    | [] => []
+    | none :: r => readsOpts r
+    | some e :: r => readsE e ++ readsOpts r
+  def readsParams : List Param → List Str
+    | [] => []
+    | .mk _ none :: ps => readsParams ps
+    | .mk _ (some a) :: ps => readsE a ++ readsParams ps
+  def readsArgs : Args → List Str
+    | .mk args defaults _ kwonly kwdefaults _ => readsParams args ++ readsEs defaults ++ readsParams kwonly ++ readsOpts kwdefaults
+end
+
+mutual
+  /-- names read inside a comprehension or a lambda somewhere in the expression -/
+  def innerReads : Expr → List Str
+    | .lambda a b => readsArgs a ++ readsE b
+    | .comp _ elts gens => readsEs elts ++ readsGens gens
+    | .attr e _ => innerReads e
+    | .call f args => innerReads f ++ innerReadss args
+    | .binop l r => innerReads l ++ innerReads r
+    | .ifExp t a b => innerReads t ++ innerReads a ++ innerReads b
+    | .tuple es => innerReadss es
+    | .list es => innerReadss es
+    | .subscript v i => innerReads v ++ innerReads i
+    | _ => []
+  def innerReadss : List Expr → List Str
+    | [] => []
+    | e :: es => innerReads e ++ innerReadss es
+end
+
+mutual
+  /-- every statement of the program, nested ones included, `located` wrappers removed -/
+  def flatStmt : Stmt → List Stmt
+    | .located _ s => flatStmt s
+    | .funcDef n a b d r => .funcDef n a b d r :: flatStmts b
+    | .classDef n bs b d => .classDef n bs b d :: flatStmts b
+    | .for_ t i b o => .for_ t i b o :: (flatStmts b ++ flatStmts o)
+    | .while_ t b o => .while_ t b o :: (flatStmts b ++ flatStmts o)
+    | .if_ t b o => .if_ t b o :: (flatStmts b ++ flatStmts o)
+    | .with_ items b => .with_ items b :: flatStmts b
+    | .try_ b hs o f => .try_ b hs o f :: (flatStmts b ++ flatHandlers hs ++ flatStmts o ++ flatStmts f)
+    | s => [s]
+  def flatStmts : List Stmt → List Stmt
+    | [] => []
+    | s :: ss => flatStmt s ++ flatStmts ss
+  def flatHandlers : List Handler → List Stmt
+    | [] => []
+    | .mk _ _ _ b :: hs => flatStmts b ++ flatHandlers hs
+end
+
+mutual
+  /-- heads `n` of attribute-chain store targets `n.a.b` -/
+  def attrHeads : Expr → List Str
+    | .attr e a => match (Expr.attr e a).dotted with
+      | some ps => [ps.headD []]
+      | none => []
+    | .tuple es => attrHeadss es
+    | .list es => attrHeadss es
+    | _ => []
+  def attrHeadss : List Expr → List Str
+    | [] => []
+    | e :: es => attrHeads e ++ attrHeadss es
+end
+
+def withTargetExprs : List WithItem → List Expr
+  | [] => []
+  | w :: ws => (match w.target with | some t => [t] | none => []) ++ withTargetExprs ws
+
+def handlerNames : List Handler → List Str
+  | [] => []
+  | .mk _ _ (some n) _ :: hs => n :: handlerNames hs
+  | .mk _ _ none _ :: hs => handlerNames hs
+
+/-- the expressions a statement itself evaluates (not those of nested statements) -/
+def ownExprs : Stmt → List Expr
+  | .expr e => [e]
+  | .assign _ v => [v]
+  | .augAssign _ v => [v]
+  | .annAssign _ a v => a :: (match v with | some e => [e] | none => [])
+  | .for_ _ i _ _ => [i]
+  | .while_ t _ _ => [t]
+  | .if_ t _ _ => [t]
+  | .return_ (some e) => [e]
+  | _ => []
+
+/-- (a) a comprehension / lambda at the level of a class body reads a name bound in that class body -/
+def famA (n : Str) (prog : List Stmt) : Bool :=
+  (flatStmts prog).any fun s => match s with
+    | .classDef _ _ body _ =>
+      (boundStmts body).contains n &&
+        (flatStmts body).any (fun t => (ownExprs t).any (fun e => (innerReads e).contains n))
+    | _ => false
+
+/-- (b) `n` is the name of an `except … as n` clause -/
+def famB (n : Str) (prog : List Stmt) : Bool :=
+  (flatStmts prog).any fun s => match s with
+    | .try_ _ hs _ _ => (handlerNames hs).contains n
+    | _ => false
+
+/-- (c) augmented assignment whose target is the plain name `n` -/
+def famC (n : Str) (prog : List Stmt) : Bool :=
+  (flatStmts prog).any fun s => match s with
+    | .augAssign (.name x) _ => x = n
+    | _ => false
+
+/-- (d)/(h) `n` is the name of a class definition (its entries are removed by `_remove_from_missing_imports`) -/
+def famD (n : Str) (prog : List Stmt) : Bool :=
+  (flatStmts prog).any fun s => match s with
+    | .classDef x _ _ _ => x = n
+    | _ => false
+
+/-- (e) a binding of `n` sits inside a conditional, loop, `with` or `try` block (static over-approximation of
+    "a binding the run does not execute"; the harness uses the dynamic fact) -/
+def famE (n : Str) (prog : List Stmt) : Bool :=
+  (flatStmts prog).any fun s => match s with
+    | .for_ t _ b o => (targetNames t ++ boundStmts b ++ boundStmts o).contains n
+    | .while_ _ b o => (boundStmts b ++ boundStmts o).contains n
+    | .if_ _ b o => (boundStmts b ++ boundStmts o).contains n
+    | .with_ _ b => (boundStmts b).contains n
+    | .try_ b hs o f => (boundStmts b ++ boundHandlers hs ++ boundStmts o ++ boundStmts f).contains n
+    | _ => false
+
+/-- (f) a `for` whose target binds `n` while its iterable reads `n` -/
+def famF (n : Str) (prog : List Stmt) : Bool :=
+  (flatStmts prog).any fun s => match s with
+    | .for_ t it _ _ => (targetNames t).contains n && (readsE it).contains n
+    | _ => false
+
+/-- (g) annotated assignment whose target is the plain name `n` -/
+def famG (n : Str) (prog : List Stmt) : Bool :=
+  (flatStmts prog).any fun s => match s with
+    | .annAssign (.name x) _ _ => x = n
+    | _ => false
+
+/-- (i) a store to an attribute chain whose head is `n` -/
+def famI (n : Str) (prog : List Stmt) : Bool :=
+  (flatStmts prog).any fun s => match s with
+    | .assign ts _ => (attrHeadss ts).contains n
+    | .augAssign t _ => (attrHeads t).contains n
+    | .annAssign t _ _ => (attrHeads t).contains n
+    | .for_ t _ _ _ => (attrHeads t).contains n
+    | .with_ items _ => (attrHeadss (withTargetExprs items)).contains n
+    | _ => false
+
+/-- (j) a parameter / return annotation of a `def` reads one of that `def`'s parameter names -/
+def famJ (n : Str) (prog : List Stmt) : Bool :=
+  (flatStmts prog).any fun s => match s with
+    | .funcDef _ (.mk args d va kwonly kd kw) _ _ returns =>
+      (Args.names (.mk args d va kwonly kd kw)).contains n &&
+        (readsParams args ++ readsParams kwonly ++ (match returns with | some r => readsE r | none => [])).contains n
+    | _ => false
+
+/-- `n` falls in none of the known families for `prog` -/
+def outsideFamilies (n : Str) (prog : List Stmt) : Bool :=
+  !(famA n prog || famB n prog || famC n prog || famD n prog || famE n prog || famF n prog || famG n prog
+    || famI n prog || famJ n prog)
+
+/-- the soundness statement for one concrete program, as a decidable check -/
+def soundOn (builtins : Scope) (ns : List Scope) (s0 : XState) (fuel : Nat) (body calls : List Stmt) : Bool :=
+  (runProgram fuel body calls s0).1.ne.all fun n =>
+    (findMissing {} builtins ns (body ++ calls)).any fun d => headOf d = n
 
 end Pfb.C05
